@@ -25,6 +25,14 @@ fn gen(seed: u64, idx: u64, _tier: Tier) -> Plan {
         s.persist_dir = Some("/tmp".into());
         s.status_interval = Some(*rng.pick(&[1i64, 10]));
     }
+    // one run in four (independent of the worker count): the embedding program has selected a verbose log level and / or deliberate
+    // response errors are configured (replies may then fail verification by design; everything
+    // else — one reply per request, to its sender, no worker lost — still holds)
+    if (idx / 5) % 4 == 3 {
+        s.log_level = Some(*rng.pick(&[4u8, 5, 3]));
+        s.fault_pct = *rng.pick(&[0i64, 10, 50]);
+        s.fault_written = s.fault_pct > 0;
+    }
     world_knobs(&mut rng, &mut plan, idx % 3 == 2);
     // drops on the path would make a closed-loop client wait for its timeout: the path is kept
     // loss-free here, schedule / distribution / delay faults stay
@@ -63,7 +71,11 @@ fn check(plan: &Plan, out: &RunOut) -> CheckOut {
     co.nontrivial = !v.sends.is_empty();
     monitor_leak(&mut co, out);
     check_no_panic(&mut co, "C18", out);
-    check_validity(&mut co, "C18", &v);
+    if spec.fault_pct == 0 {
+        check_validity(&mut co, "C18", &v);
+    } else {
+        co.probe("grease_profile");
+    }
     check_exactly_once(&mut co, "C18", &v, out, true);
     let bs = boots(out);
     if let Some(b) = bs.first() {
@@ -115,7 +127,9 @@ fn check(plan: &Plan, out: &RunOut) -> CheckOut {
                 Err(_) => continue,
             };
             let ok = r::verify_response(resp, &r::VerifyOpts { proto: info.proto, request: req, nonce: &info.nonce, long_term_pk: Some(pk), require_nonce_echo: true, lenient: false });
-            if let Err(e) = ok {
+            if spec.fault_pct > 0 {
+                // a deliberately broken reply is still the one reply this request gets
+            } else if let Err(e) = ok {
                 co.violate("C18", "client_got_invalid", format!("C18|client_got_invalid|{}", class_of_reject(e.0)), format!("client {} request {}: the response it received does not verify for it: {}", cl.sock, i, e.0));
             }
             if *t_sent >= faults_until && t_got.saturating_sub(*t_sent) > dsim::SEC {
